@@ -82,6 +82,16 @@ def check(index, ctx):
                 ctx.require(not early, "R2", kk + " earlier sweeps" if not early else f"{run.entry}: non-final sweeps over {list(outs)} retain the graph",
                             f"{len(es) - 1} earlier sweep events use the literal True",
                             f"a non-final sweep runs with retain_graph={early[0]['retain_graph'] if early else ''}: with retain_graph=False the graph is freed before the remaining sweeps", early[0]["loc"] if early else last["loc"])
+    seen_v = set()
+    for run in rs:
+        for res in run.results:
+            for e in _pipe.evs(res, "vmap"):
+                if e.get("chunk_given") and not e.get("chunk_is_dim") and (e.get("chunk_caps") or e.get("chunk_const") is not None) and e["loc"] not in seen_v:
+                    seen_v.add(e["loc"])
+                    cap = (e.get("chunk_caps") or [e.get("chunk_const")])[0]
+                    ctx.violated("R2", f"{_layout.short_fn(e)}: one pass of the VJP callable per sweep",
+                                 f"`{e['text'][:80]}` caps vmap's own chunk size at {cap}: for a last block of more than {cap} rows the VJP callable — bound to the caller's retain_graph — runs "
+                                 "several times; with retain_graph=False its second pass differentiates a graph the first one freed (the call fails for such sizes)", e["loc"])
     ctx.floor("autograd.grad events inspected", n_sites, 8)
     _pipe.common_evidence(ctx, index)
     ctx.assumptions.append("what torch frees for retain_graph=False, and that an identical second call adds an identical update (C06 + C11), are not re-decided here")
